@@ -134,11 +134,16 @@ def run(prog, chk, tier):
         chk.fail("contiguous-write", "analysis failed closed", detail=str(e))
     chk.floor("builder-ok-states", n_ok, 1)
     # the loop visits the attributes in list order: a plain slice iterator, no reordering adaptor
+    # (callee identity over the function and its closures: the list is walked by a slice iterator created from
+    #  self.attributes and consumed front to back - next / fold / try_fold / for_each - with no reordering adaptor)
     names = [og.callee_name(t) for _, t in b.calls()]
-    its = [n_ for n_ in names if " as std::iter::Iterator>::" in n_ or "IntoIterator>::into_iter" in n_]
-    ok = any("<&std::vec::Vec<stun_types::message::AttrOrRaw" in n_ and n_.endswith("into_iter") for n_ in its) and \
-        all(re.search(r"^<std::slice::Iter<.*> as std::iter::Iterator>::next$|into_iter$", n_) for n_ in its)
-    chk.ob("contiguous-write", "attributes are visited with a plain slice iterator (list order)", ok, detail=repr(its), how="callee identity")
+    for k_, cb_ in prog.bodies.items():
+        if k_.startswith(wk + "::{closure"):
+            names += [Origins(prog, cb_).callee_name(t) for _, t in cb_.calls()]
+    its = [n_ for n_ in names if " as std::iter::Iterator>::" in n_ or "IntoIterator>::into_iter" in n_ or re.search(r"<impl \[.*\]>::iter$", n_)]
+    made = any(("std::vec::Vec<stun_types::message::AttrOrRaw" in n_ and n_.endswith("into_iter")) or re.search(r"<impl \[stun_types::message::AttrOrRaw<.*>\]>::iter$", n_) for n_ in its)
+    in_order = all(re.search(r"^<std::slice::Iter<.*> as std::iter::Iterator>::(next|fold|try_fold|for_each|try_for_each)(::<.*>)?$|into_iter$|<impl \[.*\]>::iter$", n_) for n_ in its)
+    chk.ob("contiguous-write", "attributes are visited with a plain slice iterator (list order)", made and in_order, detail=repr(its), how="callee identity")
     # ---- (d, e) premises proved by the other rule sets on this tree
     for mod, rules, what in (("c04", {"build-side"}, "integrity sealing wiring (C04 build side)"),
                              ("c09", {"build-side"}, "fingerprint sealing wiring (C09 build side)"),
